@@ -613,6 +613,22 @@ def E4(ctx):
     else:
         ctx.bad("E4", fk, "the conservative extra backtrack loop must run exactly when preemption_bound.is_some() (primary=%d extra=%d)" %
                 (len(primary), len(extra)), fn.loc())
+    # under a bound the conservative point is added whatever became of the primary one: with a bound set and a previous schedule
+    # at every step, no return is reachable after the primary call that is not preceded by a conservative backtrack call
+    if len(primary) == 1 and extra:
+        a_s = assume_all(assume_option_field(P, "preemption_bound", True), assume_option_field(SCH, "prev", True))
+        dom = body.dominators()
+        bad_ret = []
+        for st in body.succs(primary[0]):
+            r_s, _ = PEval(body, a_s).run(start=st, stop_blocks=set(extra))
+            for rb in r_s:
+                if body.term(rb)["k"] == "return" and rb not in extra:
+                    bad_ret.append(rb)
+        if bad_ret:
+            ctx.bad("E4", fk, "with a preemption bound set, Path::backtrack can return after the primary backtrack point without adding the "
+                    "conservative one: schedules a smaller bound finds are lost at a larger bound", site_str(prog, fk, bad_ret[0]), detail="skipped")
+        else:
+            ctx.ok("E4", fk + ":always", "the conservative point does not depend on the outcome of the primary one", [site_str(prog, fk, extra[0])])
     # the extra point is placed where the running thread changed: active_a != active_b
     nes = [(b, t) for (b, t, c) in prog.sites(inst) if callee_path(t).endswith("PartialEq::ne")]
     if nes and all("active_thread_index" in canon(arg_expr(body, t, 0)) and "active_thread_index" in canon(arg_expr(body, t, 1)) for b, t in nes):
